@@ -719,15 +719,23 @@ func needConcreteF(v value, what string) float64 {
 func init() {
 	externals["math.Float64bits"] = func(fr *frame, a []value) value {
 		if s, ok := a[0].(sym); ok {
+			const pre = "((_ to_fp 11 53) "
+			if strings.HasPrefix(s.t, pre) && !strings.ContainsAny(s.t[len(pre):len(s.t)-1], " ()") {
+				return sym{kU64, s.t[len(pre) : len(s.t)-1]} // bits of to_fp(bits)
+			}
 			// exact for non-NaN values; NaN payloads are not distinguished by SMT fp.to_ieee_bv-less encodings
 			b := fr.i.ps.fresh("fb", kU64)
 			fr.i.ps.assertTerm("(= ((_ to_fp 11 53) " + b.t + ") " + s.t + ")")
+			fr.i.ps.floatOf[b.t] = s.t
 			return b
 		}
 		return math.Float64bits(a[0].(float64))
 	}
 	externals["math.Float64frombits"] = func(fr *frame, a []value) value {
 		if s, ok := a[0].(sym); ok {
+			if f, ok := fr.i.ps.floatOf[s.t]; ok {
+				return sym{kF64, f}
+			}
 			return sym{kF64, "((_ to_fp 11 53) " + s.t + ")"}
 		}
 		return math.Float64frombits(a[0].(uint64))
